@@ -21,6 +21,11 @@ claim('C20', 'devx-full',
       'All chains of length <= 4 (quick) / <= 6 (thorough) over 17 step symbols (8 constructors x outcomes) are built with the real checker, evaluated twice, and the recorded trace of value/condition/logic/callback invocations is compared with a reference interpreter; per-kind semantics over small parameter grids.',
       'The "random longer chains" part of the quantifier is replaced by exhaustive enumeration to depth 6; longer chains are not explored.', '§5 C20')
 
+claim('C09', 'devx',
+      'exhaustive enumeration of structural edits (singles, pairs), truncations and 1-byte substitutions executed on the real handlers under recover()',
+      'Every single and (thorough) every pair of structural edits {delete/duplicate/empty element, delete/empty/duplicate attribute} of 7 full-featured base messages (AuthnRequest POST/Redirect/signed, LogoutRequest POST/Redirect, AttributeQuery plain/signed) and of an SP metadata document, every prefix and every single-byte substitution of each document, the endpoint x method x body grid and the SigAlg x registered-key-type grid are executed against a fresh real provider (ServeHTTP / NewServiceProvider); the oracle is that recover() never fires.',
+      'Coverage-guided fuzzing and byte corruption beyond edit distance 1 (sampling) are replaced by the exhaustive families above; DSA certificates are not among the registered key types.', '§5 C09')
+
 NOT_YET = {i: 'check not built yet in this revision (planned: see DESIGN.md §5 %s); not claimed until its machinery exists' % i for i in ids}
 
 def main():
